@@ -15,6 +15,17 @@ Fixpoint ordered_nodes (seen : list ident) (ns : list node) : bool :=
 Definition block_ordered (G : pe) : bool :=
   ordered_nodes [] (pnodes G) && forallb (leaf_defined (map nid (pnodes G))) (flat_map leaves (pout G)).
 
+(* ---- decidable conditions under which append_to_abstract_graph cannot raise (merge_succeeds) *)
+(* the number of operands of a choose op is the number of operand types in its id *)
+Definition arity_ok (G : pe) : bool :=
+  forallb (fun n => Nat.eqb (length (nargs n)) (length (fst (fst (nid n))))) (pnodes G).
+Definition src_in_range (d : nat) (s : src) : bool := match s with SArg i => (i <? d)%nat | _ => true end.
+Definition args_in_range (g : pe) : bool := forallb (src_in_range (pdata g)) (all_srcs g).
+(* everything convert_generic_body_to_phs guarantees of a kernel graph *)
+Definition kernel_total_ok (g : pe) : bool :=
+  is_concrete g && nodup_ids (map nid (pnodes g)) && pe_wf g && block_ordered g && args_in_range g
+  && arity_ok g && Nat.eqb (length (pout g)) 1.
+
 (* witnesses of the two known findings, as kernel bodies *)
 Definition w_i32 : sig := ([32; 32], [32]).
 Definition w_i64 : sig := ([64; 64], [64]).
